@@ -9,7 +9,8 @@
 (*       acc  |-> sequence of <<physical word address, is_write, value>>: every access, in order,        *)
 (*       out  |-> "ok" | "unimpl" | "assert" | "oob"   (first non-ok outcome wins),                      *)
 (*       idle |-> BOOLEAN, lat |-> <<p0,p1,p2,pv>> interrupt latches, vaddr, vctx,                       *)
-(*       miu  |-> [base, z]  MMIO window base and z page (page mode 0) ]                                 *)
+(*       miu  |-> MemoryInterfaceUnit: [base, z, pm, xp, yp, xs, ys] MMIO window base, z page, page mode,   *)
+(*                x/y pages, x_size / y_size (two entries each, only x_size[0] takes part in addressing) ]  *)
 (* Physical word addresses: program word p = p; data word a = 0x20000 + 0x10000*z + a; an access inside  *)
 (* the MMIO window is the pseudo-address 0x1000000 + offset (it never touches memory).                      *)
 EXTENDS TeakAddr, TeakAlu, TeakOperand, TLC
@@ -26,22 +27,38 @@ SetR(s, r2) == [s EXCEPT !.r = r2]
 InIo(ph) == ph >= MmioBase /\ ph < MmioBase + 2048
 MemVal(s, ph) == IF InIo(ph) THEN (IF (ph - MmioBase) \in DOMAIN s.io THEN s.io[ph - MmioBase] ELSE 0)
                  ELSE IF ph \in DOMAIN s.mem THEN s.mem[ph] ELSE 0
+\* the MIU registers (MMIO 0x10E.. 0x11E) act on the very next access, in particular on the return-address push of an
+\* interrupt entered in the same cycle: their effect on s.miu is part of the write itself
+IsMiuOff(off) == off \in {270, 272, 274, 276, 278, 282, 286}
+MiuApply(m, off, v) ==
+    CASE off = 270 -> [m EXCEPT !.xp = v] [] off = 272 -> [m EXCEPT !.yp = v] [] off = 274 -> [m EXCEPT !.z = v]
+      [] off = 276 -> [m EXCEPT !.xs[1] = v % 64, !.ys[1] = (v \div 256) % 64]
+      [] off = 278 -> [m EXCEPT !.xs[2] = v % 64, !.ys[2] = (v \div 256) % 64]
+      [] off = 282 -> [m EXCEPT !.pm = (v \div 64) % 2]
+      [] off = 286 -> [m EXCEPT !.base = v]
 RawRead(s, ph)  == IF ph < MemWords \/ InIo(ph)
                    THEN [s EXCEPT !.acc = Append(@, <<ph, 0, MemVal(s, ph)>>)]
                    ELSE Fail([s EXCEPT !.acc = Append(@, <<ph, 0, 0>>)], "oob")
 RawWrite(s, ph, v) == IF ph < MemWords
                       THEN [s EXCEPT !.acc = Append(@, <<ph, 1, v>>), !.mem = (ph :> v) @@ @]
                       ELSE IF InIo(ph)
-                      THEN [s EXCEPT !.acc = Append(@, <<ph, 1, v>>), !.io = ((ph - MmioBase) :> v) @@ @]
+                      THEN [s EXCEPT !.acc = Append(@, <<ph, 1, v>>), !.io = ((ph - MmioBase) :> v) @@ @,
+                                     !.miu = IF IsMiuOff(ph - MmioBase) THEN MiuApply(@, ph - MmioBase, v) ELSE @]
                       ELSE Fail([s EXCEPT !.acc = Append(@, <<ph, 1, v>>)], "oob")
 
-InMMIO(s, a)   == a >= s.miu.base /\ a < s.miu.base + 2048
-DataPhys(s, a) == IF InMMIO(s, a) THEN MmioBase + ((a - s.miu.base) % 2048) ELSE DataBase + a + 65536 * s.miu.z
+\* MemoryInterfaceUnit as constructed / Reset (memory_interface.h member initialisers)
+MiuReset == [base |-> 32768, z |-> 0, pm |-> 0, xp |-> 0, yp |-> 0, xs |-> <<32, 32>>, ys |-> <<30, 30>>]
+InMMIO(s, a)   == a >= s.miu.base /\ a < s.miu.base + 2048          \* the sum is formed in int: no 16-bit wrap
+\* ConvertDataAddress: page mode 0 -> z page; page mode 1 -> x page up to AND INCLUDING x_size[0] * 0x400, y page above
+DataPage(s, a) == IF s.miu.pm = 0 THEN s.miu.z ELSE IF a <= s.miu.xs[1] * 1024 THEN s.miu.xp ELSE s.miu.yp
+DataPhys(s, a) == IF InMMIO(s, a) THEN MmioBase + ((a - s.miu.base) % 2048) ELSE DataBase + a + 65536 * DataPage(s, a)
 
-\* MemoryInterface::DataRead / DataWrite (no bypass).  An MMIO-window access with z_page # 0 asserts.
+\* MemoryInterface::DataRead / DataWrite (no bypass).  An MMIO-window access with z_page # 0 asserts (ToMMIO, in
+\* either page mode); a memory access whose selected page is not 0 or 1 asserts (ConvertDataAddress).
+DAsserts(s, a) == IF InMMIO(s, a) THEN s.miu.z # 0 ELSE DataPage(s, a) >= 2
 DVal(s, a)  == MemVal(s, DataPhys(s, a % B))
-DRead(s, a) == IF InMMIO(s, a % B) /\ s.miu.z # 0 THEN Fail(s, "assert") ELSE RawRead(s, DataPhys(s, a % B))
-DWrite(s, a, v) == IF InMMIO(s, a % B) /\ s.miu.z # 0 THEN Fail(s, "assert") ELSE RawWrite(s, DataPhys(s, a % B), v)
+DRead(s, a) == IF DAsserts(s, a % B) THEN Fail(s, "assert") ELSE RawRead(s, DataPhys(s, a % B))
+DWrite(s, a, v) == IF DAsserts(s, a % B) THEN Fail(s, "assert") ELSE RawWrite(s, DataPhys(s, a % B), v)
 PVal(s, p)  == MemVal(s, p)
 PRead(s, p) == RawRead(s, p)
 PWrite(s, p, v) == RawWrite(s, p, v)
